@@ -110,7 +110,7 @@ pub fn check_step(ctx: &mut Ctx, s: &Step) -> Result<(), Violation> {
 pub fn run(cfg: &Cfg) -> i32 {
     let report = engine::run_shards(cfg, |shard, ctx, seedf| {
         common::golden(cfg, shard, ctx, &check_step)?;
-        common::histories(ctx, seedf(1), cfg.per_shard(40_000, 800_000), 4, 40, None, &check_step)?;
+        common::histories(ctx, seedf(1), cfg.per_shard(400_000, 6_000_000), 4, 40, None, &check_step)?;
         Ok(())
     });
     engine::finish(
